@@ -898,6 +898,10 @@ func Merge[T any](in ...Stream[T]) Stream[T] {
 	nDone := uint32(0)
 	closeOnce := uint32(0)
 	ctx, cancel := context.WithCancel(context.Background())
+	if len(in) == 0 {
+		// Nothing will ever call sender.Close below.
+		sender.Close(nil)
+	}
 	for i := 0; i < len(in); i++ {
 		i := i
 		go func() {
